@@ -391,8 +391,8 @@ func (exp *exporter) FormatParagraph(text []byte) []byte {
 
 func (exp *exporter) FigureImage(image string, caption string, link string, alt string) {
 	ctx := exp.Context()
-	if strings.ContainsAny(image, "{}") || strings.ContainsAny(caption, "{}") {
-		ctx.Error("path argument and caption should not contain the characters `{', or `}")
+	if strings.ContainsAny(image, "{}\\") || strings.ContainsAny(caption, "{}") {
+		ctx.Error("path argument should not contain the characters `{', `}' or `\\', and caption should not contain `{' or `}'")
 		return
 	}
 	w := ctx.W()
@@ -424,8 +424,8 @@ func (exp *exporter) HeaderReference(macro string) string {
 
 func (exp *exporter) InlineImage(image string, link string, id string, punct string, alt string) {
 	ctx := exp.Context()
-	if strings.ContainsAny(image, "{}") {
-		ctx.Error("path argument should not contain the characters `{', or `}")
+	if strings.ContainsAny(image, "{}\\") {
+		ctx.Error("path argument should not contain the characters `{', `}' or `\\'")
 		return
 	}
 	w := ctx.W()
